@@ -131,6 +131,14 @@ def c11_cases(chk, quick):
             c["hasher"] = "ident"          # a true identity hasher: hashes are neighbouring small integers
             c["elems"] = "small" if i % 8 == 3 else "sentinel"   # ... or the extreme 64-bit values (0, 2^64-1, 2^63, ...)
     # sketch sizes beyond one byte (and, thorough, beyond two bytes) on a few random sequences
+    # sequences of a few thousand elements (buffers, block-wise processing) with a small sketch
+    for _ in range(2 if quick else 6):
+        n = rnd.randint(2100, 5200)
+        alpha = rnd.randint(300, 900)
+        seq = [rnd.randint(1, alpha) for _ in range(n)]
+        s2 = list(seq)
+        rnd.shuffle(s2)
+        cases.append(dict(m=rnd.choice([2, 4]), l=rnd.choice([1, 2]), seqs=[seq, s2]))
     # (the recorded tables grow with m x pairs: the largest sizes get short sequences over 3 symbols)
     for mm in ([300, 1000] if quick else [257, 300, 1000, 5000, 70000]):
         for _ in range(2 if mm <= 1000 else 1):
